@@ -30,15 +30,7 @@ theorem batch_empty_guard_recognised : Gen.batchEmptyReturns = true := by decide
 
 /-- The ring always has at least two slots: default 21, and `History < 2 ⇒ 2`. This is what makes "the slot before
 idx" a different slot from idx (`ring_tracks_history`; `history_one_breaks_previous_level` shows it is needed). -/
-theorem history_at_least_two (h : Option Int) : 2 ≤ effHistory h := by
-  unfold effHistory
-  simp only [Gen.defaultHistory, Gen.historyClamp]
-  cases h with
-  | none => decide
-  | some h =>
-    by_cases hh : h < 2
-    · simp [hh]
-    · simp only [hh, if_false]; omega
+theorem history_at_least_two (h : Option Int) : 2 ≤ effHistory h := effHistory_ge_two h
 
 /-! ### The level of a point -/
 
@@ -53,26 +45,12 @@ theorem determineLevel_spec (c : Cfg) (p : Pt) (cur : Nat) :
 /-- Without reset expressions the level is simply the highest severity whose condition holds. -/
 theorem determineLevel_no_resets (c : Cfg) (p : Pt) (cur : Nat)
     (h : c.infoReset = false ∧ c.warnReset = false ∧ c.critReset = false) :
-    determineLevel c p cur = highestHolding c p := by
-  rw [determineLevel_eq_specLevel]
-  obtain ⟨h1, h2, h3⟩ := h
-  have : heldBack c p cur = false := by
-    unfold heldBack resetExpr
-    match cur with
-    | 0 => rfl
-    | 1 => simp [h1]
-    | 2 => simp [h2]
-    | 3 => simp [h3]
-    | _ + 4 => rfl
-  simp [specLevel, this]
+    determineLevel c p cur = highestHolding c p :=
+  determineLevel_of_no_resets c p cur h
 
 /-- The level never leaves `OK … Critical`. -/
-theorem determineLevel_in_range (c : Cfg) (p : Pt) (cur : Nat) (h : cur ≤ 3) : determineLevel c p cur ≤ 3 := by
-  rw [determineLevel_eq_specLevel]
-  unfold specLevel
-  have := highestHolding_le c p
-  simp only []
-  split <;> omega
+theorem determineLevel_in_range (c : Cfg) (p : Pt) (cur : Nat) (h : cur ≤ 3) : determineLevel c p cur ≤ 3 :=
+  determineLevel_le c p cur h
 
 /-- The documented example (pipeline/alert.go:100-127): values 61 73 64 85 62 56 47 give
 INFO WARNING WARNING CRITICAL INFO INFO OK. (A test of the model, labelled as such; the same case runs on the real
@@ -286,7 +264,7 @@ example : Cfg.WF { warn := true, crit := true, warnReset := true, sco := true, s
   ⟨by decide, by decide⟩
 
 example : ∀ h : Option Int, Cfg.WF { history := effHistory h } :=
-  fun h => ⟨history_at_least_two h, by decide⟩
+  fun h => ⟨history_at_least_two h, by show (0 : Int) ≤ maxDuration; decide⟩
 
 /-- a history with a level change, a held reset, an interval re-send, a suppressed repeat and a withheld recovery -/
 example :
